@@ -87,6 +87,16 @@ def run_unit(A, unit, rep, tier, readers_only=False, rule="C13"):
                 if not acc:
                     continue
                 st = lock_dataflow(g)
+                # (d) a forced flush merges into / saves OTHER collections of the class: their trees may only be
+                #     mutated under the buffer lock (which every buffered mutator of that collection holds first)
+                for n in live(g):
+                    if n.kind == "data_mut" and n["owner"].kind == "inst" and n["owner"].args[2] == "O":
+                        if all(("buf" in held_ids(s_)) or ("col:root:O" in held_ids(s_)) for s_ in st.get(n.id, [()])):
+                            rep.ok(rule + ".d" if rule == "C13" else rule)
+                        else:
+                            rep.fail(rule + ".d" if rule == "C13" else rule, norm_key(rule + ".d" if rule == "C13" else rule, n.func, n.stmt, "other-tree"),
+                                     f"`{n.stmt}` in {n.func} mutates the tree of another buffered collection (during a flush) while holding neither the buffer lock nor that collection's lock",
+                                     g.witness(g.path(g.entry, [n.id])), g.label)
                 for n in acc:
                     n_sites += 1
                     states = st.get(n.id, [()])
